@@ -1790,13 +1790,16 @@ feature! {
         }
 
         fn register_callsite(&self, metadata: &'static Metadata<'static>) -> Interest {
-            // Return highest level of interest.
-            let mut interest = Interest::never();
+            // `enabled` requires *every* subscriber in the `Vec` to enable a
+            // span or event, so the cached interest must be the conjunction of
+            // theirs: `never` if any of them is never interested, `always`
+            // only if all of them always are (in particular for an empty
+            // `Vec`, which, like `None`, must not disable anything), and
+            // `sometimes` otherwise. Every subscriber is still registered.
+            let mut interest = Interest::always();
             for s in self {
                 let new_interest = s.register_callsite(metadata);
-                if (interest.is_sometimes() && new_interest.is_always())
-                    || (interest.is_never() && !new_interest.is_never())
-                {
+                if new_interest.is_never() || (new_interest.is_sometimes() && interest.is_always()) {
                     interest = new_interest;
                 }
             }
